@@ -467,6 +467,31 @@ theorem history_length_preserving_partial {clean : Bytes → Prop} {parse : Byte
           refine ⟨this.1, ?_⟩
           rw [this.2, htext]; rfl
 
+/-- THE SEARCH CLAUSE ("later searches on the edited document see what a fresh parse would see"):
+whatever is computed from a document — `find`, `find_all`, `replace` with any matcher — is a function
+of its text and its tree, because a `Document` holds nothing else (the real `Root` likewise owns the
+source and the tree only; a per-document cache that survived an edit would break exactly this, which
+is what the `c10_search` oracle of unit `editdoc` looks for on the implementation: searches by kind
+and by pattern before and after an edit that introduces node kinds the document did not contain).
+So after any history of error-free texts every search answers as on the fresh parse of the final text. -/
+theorem history_fixed_search {α : Type} {clean : Bytes → Prop} {parse : Bytes → Tree}
+    {reparse : Bytes → Tree → Option Tree} (c : ReparseContract clean parse reparse)
+    (search : Document → α) (as : List Action) (d d' : Document) (es : List REdit)
+    (hd : d.tree = parse d.text)
+    (h : runHistory (doEditFixed reparse) d as = .ok (d', es))
+    (hc : ∀ x ∈ spliceTrace d.text (es.map specEdit), clean x) :
+    search d' = search { text := spliceSeq d.text (es.map specEdit),
+                         tree := parse (spliceSeq d.text (es.map specEdit)) } := by
+  have ht := history_fixed_tree c as d d' es hd h hc
+  have : d' = { text := spliceSeq d.text (es.map specEdit),
+                tree := parse (spliceSeq d.text (es.map specEdit)) } := by
+    cases d' with
+    | mk t tr =>
+      simp only at ht
+      simp only [Document.mk.injEq]
+      exact ⟨ht.2, by rw [ht.1, ht.2]⟩
+  rw [this]
+
 /-- the contract is satisfiable (so the two theorems above are not vacuous): a "parser" that ignores the
 old tree -/
 example : ReparseContract (fun _ => True) (fun s => .node { (default : Info) with stop := s.length } [])
